@@ -173,8 +173,8 @@ Theorem combined_request_keeps_contract :
 Proof. exact combined_request_contract. Qed.
 
 (* Any number of sources requested together (service.wms.combined_layers): every layer e that is rendered stands for
-   a group ms of adjacent sources, agrees with each of them (same coverage bbox / equal SRS / same geometry, equal
-   supported_srs and supported_formats lists, the same forwarded dimensions for this query), and a layer that stands
+   a group ms of adjacent sources, agrees with each of them (same coverage bbox / equal SRS / same geometry, the same
+   supported_srs CODES and supported_formats lists, the same forwarded dimensions for this query), and a layer that stands
    for more than one source exists only when no member's resolution range excludes the request.  Since e is a
    wms_source, all theorems above apply to its request; with agrees they carry over to every member. *)
 Theorem combined_layers_keep_contract :
@@ -202,3 +202,14 @@ Theorem reprojected_request_srs_and_format :
     In (r_srs r) (w_srs src) /\ r_fmt r = choose_format src q /\
     (w_fmts src <> [] -> exists e, In e (w_fmts src) /\ (r_fmt r = e \/ fmt_match (r_fmt r) e = true)).
 Proof. exact reprojected_request. Qed.
+
+(* ... in particular the request of such a layer carries an srs_code that every source it stands for lists
+   (sources whose lists name the same SRS with different codes are not combined). *)
+Theorem combined_request_srs_supported_by_every_member :
+  forall (T : srs -> srs -> bbox -> option bbox) (kn kd : Z) (GI GC : Z -> bbox -> bool)
+         (first : wms_source) (rest : list (bool * wms_source)) (q : query)
+         (e : wms_source) (ms : list wms_source) (r : request) (m : wms_source),
+    In (e, ms) (combine_layers kn kd first rest q) ->
+    wms_get_map T kn kd GI GC e q = Request r -> w_srs e <> [] -> In m ms ->
+    In (s_code (r_srs r)) (map s_code (w_srs m)).
+Proof. exact combined_request_code_of_members. Qed.
